@@ -78,13 +78,22 @@ def merge(acc, d):
     return acc
 
 
+def _die_with_parent():
+    # a pool worker must not outlive the worker that started it (e.g. when the caller's time budget kills that one)
+    try:
+        import ctypes, signal
+        ctypes.CDLL('libc.so.6', use_errno=True).prctl(1, signal.SIGKILL)      # PR_SET_PDEATHSIG
+    except Exception:
+        pass
+
+
 def run_parallel(modname, unitname, par, tmo):
     t0 = time.time()
     unit, _ = load(modname, unitname)
     nprof = len(unit.profiles or [unit.profile])
     acc = None
     pending = [[(i, [])] for i in range(nprof)]
-    with cf.ProcessPoolExecutor(max_workers=par) as ex:
+    with cf.ProcessPoolExecutor(max_workers=par, initializer=_die_with_parent) as ex:
         futs = set()
         while pending or futs:
             while pending and len(futs) < par * 2:
